@@ -279,6 +279,7 @@ fn join_binary(l: &str, op: &str, r: &str) -> String {
 /// not a chain ending in one: `a |> b`, `a + b |> c`, `a ?> b |> c |> d`);
 /// `else-chain-without-default` = an else-chain whose last link is itself a conditional;
 /// `expression-without-a-value` = a program without tokens (blanks and annotations aside) or an empty group `( )`;
+/// `empty-side-effect` = a side-effect block with nothing in it (`[]`);
 /// `reapply-under-operator` = a `^~` that is not an arm of a conditional / else-chain, an operand of `&&` /
 /// `||`, or a whole (sub-)expression, so that operands of enclosing operators are pending when it jumps back.
 pub fn shape_tags(src: &str) -> String {
@@ -291,6 +292,7 @@ pub fn shape_tags(src: &str) -> String {
     // no value anywhere: no token at all (blanks and annotations aside), or a group with nothing in it
     let mut valueless = nodes.iter().all(|n| n.get_definition() == Def::Drop);
     let mut reapply_bad = false;
+    let mut empty_side_effect = false;
     for n in nodes.iter() {
         match n.get_definition() {
             Def::ElseJump => {
@@ -315,6 +317,7 @@ pub fn shape_tags(src: &str) -> String {
                 }
             }
             Def::Group if n.get_left().is_none() && n.get_right().is_none() => valueless = true,
+            Def::SideEffect if n.get_right().is_none() => empty_side_effect = true,
             Def::Reapply => {
                 let mut cur = n.get_parent();
                 while let Some(pi) = cur {
@@ -334,7 +337,8 @@ pub fn shape_tags(src: &str) -> String {
         }
     }
     format!(
-        "{}{}{}{}",
+        "{}{}{}{}{}",
+        if empty_side_effect { " shape:empty-side-effect" } else { "" },
         if valueless { " shape:expression-without-a-value" } else { "" },
         if else_bad { " shape:else-without-conditional" } else { "" },
         if reapply_bad { " shape:reapply-under-operator" } else { "" },
@@ -550,6 +554,10 @@ impl Campaign for C06 {
         v.extend(seeded_scenario("( )", &[], vec![0]));
         v.extend(seeded_scenario("5 + ( )", &[], vec![0]));
         v.extend(seeded_scenario("{ ( ) }~~", &[], vec![0]));
+        // D30: an empty side-effect block: EndSideEffect pops a value nobody pushed (the value in front of the block, or nothing)
+        v.extend(seeded_scenario("5 []", &[], vec![0]));
+        v.extend(seeded_scenario("[] 5", &[], vec![0]));
+        v.extend(seeded_scenario("{ i1 [] }~~", &["i1"], vec![0, 1]));
         // D28: a side-effect block directly in front of a nested expression: the expression value is never put
         v.extend(seeded_scenario("8 + [i1] { 1 }", &["i1"], vec![0, 1]));
         v.extend(seeded_scenario("{ 8 >= [i1] { 1 } }~~", &["i1"], vec![0, 1]));
